@@ -79,7 +79,7 @@ impl core::fmt::Write for Sink {
 
 /// C13: the inline text of a multi-commodity amount (used in error messages and `eval` output) does not
 /// depend on map iteration order: two maps with equal content and independent orders print the same.
-vk_proof_models_fmt! { unwind 18; fn c13_inline_display_order() {
+vk_proof_models_fmt! { unwind 12; fn c13_inline_display_order() {
     let swap = vk::bool();
     vk::order_nondet(true);
     let (x, y) = (commodity(0), commodity(1));
@@ -94,14 +94,8 @@ vk_proof_models_fmt! { unwind 18; fn c13_inline_display_order() {
     write!(sb, "{}", b.as_inline_display()).unwrap();
     vk::note(&|| format!("texts {:?} / {:?}", core::str::from_utf8(&sa.buf[..sa.n]), core::str::from_utf8(&sb.buf[..sb.n])));
     assert!(sa.n == sb.n, "C13: inline text of equal amounts differs in length");
-    let mut i = 0;
-    let mut same = true;
-    while i < 16 {
-        if i < sa.n && sa.buf[i] != sb.buf[i] {
-            same = false;
-        }
-        i += 1;
-    }
+    // the buffers are zero beyond n: one 128-bit comparison instead of a 16-iteration loop
+    let same = u128::from_le_bytes(sa.buf) == u128::from_le_bytes(sb.buf);
     assert!(same, "C13: inline text of a multi-commodity amount depends on map iteration order");
     vk_cover!(swap, "second map built in the other insertion order");
     core::mem::forget(a);
